@@ -19,6 +19,8 @@ PROGS = {
     'P08': [step(cmd='raise', val='E1')],
     # the Kill command without a message (Kill() / Kill(msg=None)): no kill text anywhere ('NOMSG' stands for its absence)
     'P25': [step('async', 1, cmd='continue', next=2), step(cmd='kill', val='NOMSG')],
+    # an output that cannot be copied ('lk': a lock), emitted by the last step of a successful run
+    'P26': [step(emits=[['o1', 'lk']], cmd='stop', val='v7')],
     'P09': [step('async', 2, cmd='raise', val='E1')],
     'P10': [step(cmd='wait', next=2, val='w1'), step(cmd='wait', next=3, val='w2'), step(cmd='stop', val='v7')],
     'P12': [step(emits=[['o1', 'v1']], cmd='continue', next=2), step(emits=[['o2', 'v2']], cmd='stop', val='v7')],
